@@ -8,7 +8,7 @@ import pandas as pd
 from . import docs
 
 L = 377580          # lcm(28..31): per-day usage constants divisible by every month length stay integer through the billing spread
-VARIANTS = ["pad30_chicago", "pad30_kolkata", "pad120_chicago", "pad366_london", "pad30_chicago_nullable"]      # _nullable: temperature as a pandas nullable Float64 column (pd.NA)
+VARIANTS = ["pad30_chicago", "pad30_kolkata", "pad120_chicago", "pad366_london", "pad30_chicago_nullable", "pad30_chicago_extra"]      # _extra: the frame carries further columns with gaps of their own      # _nullable: temperature as a pandas nullable Float64 column (pd.NA)
 _models = {}
 _em = {}
 
@@ -28,7 +28,7 @@ def _model(fam, tz, m):
 
 
 def _variant(v):
-    v = v.replace("_nullable", "")
+    v = v.replace("_nullable", "").replace("_extra", "")
     tz = {"pad30_chicago": "America/Chicago", "pad30_kolkata": "Asia/Kolkata", "pad120_chicago": "America/Chicago", "pad366_london": "Europe/London"}[v]
     total = {"pad30_chicago": 30, "pad30_kolkata": 30, "pad120_chicago": 120, "pad366_london": 366}[v]
     return tz, total
@@ -83,6 +83,9 @@ def realise(cin, variant):
             if variant.endswith("_nullable"):       # what convert_dtypes() / read_csv(dtype_backend="numpy_nullable") hand over: missing is pd.NA
                 frame["temperature"] = pd.array(np.where(np.isnan(T), 0.0, T), dtype="Float64")
                 frame.loc[np.isnan(T), "temperature"] = pd.NA
+            if variant.endswith("_extra"):          # a sparse note and a reviewer column: their gaps say nothing about temperature or usage
+                frame["reading_quality"] = np.where(np.arange(len(frame)) % 3 == 0, np.nan, 1.0)
+                frame["reviewed_by"] = [None if k % 4 == 1 else "ab" for k in range(len(frame))]
             data = em.DailyReportingData(frame, is_electricity_data=False)
         else:
             temp = pd.Series(T, index=idx, name="temperature")
